@@ -243,6 +243,7 @@ def _variant_objects(seed):
     R('one-rdm', dissimilarities=d[:1].copy(), rdm_descriptors={'sess': [1]})
     # array-valued descriptors of size zero (an empty exclusion list, an empty table) are arrays, not None
     R('desc-empty-arrays', descriptors={'excluded': np.array([], dtype=int), 'bad': np.zeros((0, 2)), 'subj': 's1'})
+    R('desc-list-of-strings', descriptors={'tags': ['a', 'bc', 'd'], 'subj': 's1'})
     R('desc-scalar-arrays', descriptors={'one': np.array([7]), 'zero': np.array([0.0]), 'm11': np.array([[1.5]])})
 
     def D(key, temporal=False, **kw):
@@ -481,6 +482,7 @@ def run_item(item, ctx, tmp, only=None):
     cls = ',unicode' if uni else ''
     for file_type in ('hdf5', 'pkl'):
         ext = '.hdf5' if file_type == 'hdf5' else '.pkl'
+        exts = {'hdf5': ['.hdf5', '.h5'], 'pkl': ['.pkl']}[file_type]
         for target_kind in ('path', 'handle'):
             for history in ('fresh', 'existing', 'same-handle'):
                 for overwrite in (False, True):
@@ -501,6 +503,7 @@ def run_item(item, ctx, tmp, only=None):
                     ctx.case(case)
                     ctx.transitions += 1
                     n[0] += 1
+                    ext = exts[n[0] % len(exts)]      # both documented HDF5 extensions
                     path = os.path.join(tmp, 'f%d%s' % (n[0], ext))
                     with ctx.guard(sig, case), np.errstate(all='ignore'):
                         obj = make()
@@ -550,6 +553,10 @@ def run_item(item, ctx, tmp, only=None):
                                      'saving changed the in-memory object')
                         if target_kind == 'path':
                             back = load(kind, path, file_type)
+                            # the file type is inferred from the extension when it is not given
+                            if kind in ('rdms', 'dataset', 'result'):      # (models have no loader of their own)
+                                for k, msg in diff(kind, ref, load(kind, path, None)):
+                                    ctx.fail('%s,inferred-file-type|%s' % (sig, k), case, msg)
                         else:
                             with open(path, 'rb') as fh2:
                                 back = load(kind, fh2, file_type)
